@@ -17,16 +17,20 @@ class MessageHead(packet.Packet):
         ''' remove padding from payload list after disect() completes '''
         formats.remove_padding(self)
 
+        # An unknown type can never be completed and is left to be rejected,
+        # a known type with missing or undecodable content may be incomplete
+        cls = self.guess_payload_class(b'')
+        known = (cls is not packet.Raw)
+
         if not self.payload:
             # Payloads without any field are never constructed by scapy
             # when the message type is the final octet of the data
-            cls = self.guess_payload_class(b'')
             if (isinstance(cls, type) and issubclass(cls, formats.NoPayloadPacket)
                     and not cls.fields_desc):
                 self.add_payload(cls())
-            else:
+            elif known:
                 raise formats.VerifyError('Message without payload')
-        if isinstance(self.payload, packet.Raw):
+        elif isinstance(self.payload, packet.Raw) and known:
             raise formats.VerifyError('Message with improper payload')
 
         packet.Packet.post_dissection(self, pkt)
